@@ -141,12 +141,20 @@ type Sim struct {
 	tainted  map[string]bool
 	lastMtime map[string]time.Time
 	pollMismatch map[string]bool
+	actions  int    // externally visible sender actions so far (all generations)
+	crashAt  int    // crash the sender when actions reaches this (0: never)
+	crashedAt string
+	needRestart bool
+	actionLog []string
+	listedAt map[int]map[string][]rng // sender generation -> (name|hash) -> ranges the receiver listed in the partials answer
+	heldAt   map[int]map[string]bool  // sender generation -> (name|hash) complete/validated/delivered at the receiver at that time
+	positivePolls map[string]bool     // name|hash -> a positive answer reached the sender
 }
 
 func NewSim(t *vt.T, prop string, conf SimConf) *Sim {
 	w := NewWorld(t, prop)
 	s := &Sim{t: t, prop: prop, w: w, conf: conf, dead: map[int]bool{}, versions: map[string][]*srcVersion{},
-		deleted: map[string]bool{}, tainted: map[string]bool{}, lastMtime: map[string]time.Time{}, pollMismatch: map[string]bool{}, faultKinds: map[int]int{}, retransAllowed: map[string]bool{}, others: w.others}
+		deleted: map[string]bool{}, tainted: map[string]bool{}, lastMtime: map[string]time.Time{}, pollMismatch: map[string]bool{}, listedAt: map[int]map[string][]rng{}, heldAt: map[int]map[string]bool{}, positivePolls: map[string]bool{}, faultKinds: map[int]int{}, retransAllowed: map[string]bool{}, others: w.others}
 	s.srcDir = filepath.Join(w.dir, "src")
 	s.cacheDir = filepath.Join(w.dir, "cache")
 	s.sentDir = filepath.Join(w.dir, "sentlog")
@@ -223,6 +231,12 @@ func (s *Sim) WriteSource(name string, size int, age time.Duration) {
 	os.Rename(tmp, p)
 	v := &srcVersion{name: name, data: data, hash: md5hex(data), at: time.Now()}
 	s.mu.Lock()
+	for _, o := range s.versions[name] {
+		if o.hash == v.hash {
+			// same bytes written again: for the sender a changed file (new time), sent again
+			s.retransAllowed[name+"|"+v.hash] = true
+		}
+	}
 	s.versions[name] = append(s.versions[name], v)
 	delete(s.deleted, name)
 	s.mu.Unlock()
@@ -270,8 +284,18 @@ type recStore struct {
 	gen int
 }
 
+func (r *recStore) GetOpener() sts.Open {
+	op := r.Local.GetOpener()
+	return func(f sts.File) (sts.Readable, error) {
+		if r.s.tick(r.gen, "open "+f.GetName()) {
+			return nil, errDead
+		}
+		return op(f)
+	}
+}
+
 func (r *recStore) Remove(f sts.File) error {
-	if r.s.isDead(r.gen) {
+	if r.s.tick(r.gen, "remove "+f.GetName()) {
 		return errDead
 	}
 	r.s.onRelease("remove", f.GetName())
@@ -279,7 +303,7 @@ func (r *recStore) Remove(f sts.File) error {
 }
 
 func (r *recStore) Scan(allow func(sts.File) bool) ([]sts.File, time.Time, error) {
-	if r.s.isDead(r.gen) {
+	if r.s.tick(r.gen, "scan") {
 		return nil, time.Time{}, errDead
 	}
 	return r.Local.Scan(allow)
@@ -292,7 +316,7 @@ type recCache struct {
 }
 
 func (c *recCache) Done(name string, whileLocked func(sts.Cached)) {
-	if c.s.isDead(c.gen) {
+	if c.s.tick(c.gen, "cache-done "+name) {
 		return
 	}
 	if f := c.JSON.Get(name); f != nil && !f.IsDone() {
@@ -302,14 +326,14 @@ func (c *recCache) Done(name string, whileLocked func(sts.Cached)) {
 }
 
 func (c *recCache) Persist() error {
-	if c.s.isDead(c.gen) {
+	if c.s.tick(c.gen, "cache-persist") {
 		return errDead
 	}
 	return c.JSON.Persist()
 }
 
 func (c *recCache) Add(f sts.Hashed) {
-	if c.s.isDead(c.gen) {
+	if c.s.tick(c.gen, "cache-add "+f.GetName()) {
 		return
 	}
 	c.JSON.Add(f)
@@ -329,7 +353,7 @@ type recLogger struct {
 }
 
 func (l *recLogger) Sent(f sts.Sent) {
-	if l.s.isDead(l.gen) {
+	if l.s.tick(l.gen, "sent-log "+f.GetName()) {
 		return
 	}
 	l.s.onSent(f)
@@ -340,6 +364,29 @@ func (s *Sim) isDead(gen int) bool {
 	s.mu.Lock()
 	defer s.mu.Unlock()
 	return s.dead[gen]
+}
+
+// tick marks the boundary before an externally visible action of the sender
+// (scan, open/hash, cache write, request, log write, delete). When the drawn
+// crash index is reached the process "dies" right here: this action and
+// everything after it has no effect. Returns true if the caller is dead.
+func (s *Sim) tick(gen int, label string) bool {
+	s.mu.Lock()
+	defer s.mu.Unlock()
+	if s.dead[gen] {
+		return true
+	}
+	s.actions++
+	if len(s.actionLog) < 600 {
+		s.actionLog = append(s.actionLog, label)
+	}
+	if s.crashAt > 0 && s.actions == s.crashAt {
+		s.dead[gen] = true
+		s.crashedAt = label
+		s.needRestart = true
+		return true
+	}
+	return false
 }
 
 // onRelease: the sender marks a file done / deletes it. C02: the receiver must
@@ -476,7 +523,7 @@ func (s *Sim) onSent(f sts.Sent) {
 // transport (runs on sender goroutines; blocks until the controller serves it)
 
 func (s *Sim) post(r *req) reqResult {
-	if s.isDead(r.gen) {
+	if s.tick(r.gen, "request "+r.kind) {
 		return reqResult{err: errDead}
 	}
 	r.reply = make(chan reqResult, 1)
@@ -577,6 +624,7 @@ func (s *Sim) CrashSender() {
 	s.mu.Lock()
 	gen := s.gen
 	s.dead[gen] = true
+	s.needRestart = false
 	var keep []*req
 	var drop []*req
 	for _, r := range s.pending {
@@ -703,6 +751,13 @@ func (s *Sim) Serve(r *req, f Fault) {
 			r.reply <- reqResult{err: errTransport}
 			return
 		}
+		s.mu.Lock()
+		for _, p := range out {
+			if p.Received() || p.Waiting() {
+				s.positivePolls[p.GetName()+"|"+p.GetHash()] = true
+			}
+		}
+		s.mu.Unlock()
 		r.reply <- reqResult{polled: out}
 	case "recover":
 		if f.Kind == XRefuse || f.Kind == XLostAnswer {
@@ -918,7 +973,27 @@ func (s *Sim) observe() {
 	}
 }
 
-func (s *Sim) onPartials(gen int, ps []*sts.Partial) {}
+func (s *Sim) onPartials(gen int, ps []*sts.Partial) {
+	s.mu.Lock()
+	defer s.mu.Unlock()
+	if s.listedAt[gen] != nil {
+		return // only the first answer a generation gets counts as "at restart"
+	}
+	l := map[string][]rng{}
+	for _, p := range ps {
+		for _, r := range p.Parts {
+			l[p.Name+"|"+p.Hash] = append(l[p.Name+"|"+p.Hash], rng{r.Beg, r.End})
+		}
+	}
+	s.listedAt[gen] = l
+	h := map[string]bool{}
+	for _, a := range s.w.arrivals {
+		if a.Ver != nil {
+			h[a.Ver.Name+"|"+a.MD5] = true
+		}
+	}
+	s.heldAt[gen] = h
+}
 
 func (s *Sim) Close() {
 	s.mu.Lock()
@@ -945,3 +1020,5 @@ func (s *Sim) Close() {
 }
 
 var _ = stage.New
+
+func cacheReload(s *Sim) (*cache.JSON, error) { return cache.NewJSON(s.cacheDir, s.srcDir, "") }
